@@ -24,9 +24,9 @@ type Event struct {
 	C   int    `json:"c"` // block / CID number, 0 = none
 	N   int    `json:"n"` // count / listener number / misc
 	Err bool   `json:"err,omitempty"`
-	Q   []int  `json:"q,omitempty"` // sequences (e.g. what a listener got, flattened)
+	Q   []int  `json:"q,omitempty"`  // sequences (e.g. what a listener got, flattened)
 	Op  string `json:"op,omitempty"` // operation of a call ("start" events)
-	R   string `json:"r,omitempty"` // result of a call ("ret" events)
+	R   string `json:"r,omitempty"`  // result of a call ("ret" events)
 }
 
 type Arrival struct {
